@@ -20,7 +20,7 @@ ASSUMPTIONS = ['kv/spine.py column tracking (see C02)', 'the full export is alig
 
 @st.composite
 def cases(draw):
-    doc = draw(D.documents(D.profile('full', min_spines=2, kern_weight=1)))
+    doc = draw(D.documents(D.profile('full', min_spines=2, kern_weight=1, hidden_bars=True)))
     n = len(doc['types'])
     combos = []
     for _ in range(6):
